@@ -104,6 +104,11 @@ type Holder struct {
 
 // Al is an alias declaration (generators that implement GenerateAliasType are called for it).
 type Al = map[string]int
+
+//line /shared/templates/model.tmpl:40
+// Tpl was rendered from a shared template; this is the doc it has in package p.
+// +origin=p
+type Tpl struct{ InP int }
 `,
 		"q/q.go": `// Package q switches the generator n1 off for itself through a package-level tag (later packages keep it).
 // +gengo:n1=false
@@ -123,6 +128,11 @@ type Sub struct {
 
 // Al is an alias declaration (generators that implement GenerateAliasType are called for it).
 type Al = map[string]int
+
+//line /shared/templates/model.tmpl:40
+// Tpl was rendered from the same template; in package q it says something else.
+// +origin=q
+type Tpl struct{ InQ string }
 `,
 		"r/r.go": `package r
 
@@ -290,6 +300,8 @@ func spec(dir string, entry []string, all bool, order []string) pipe.Spec {
 			gs.Default.FieldTypeIDs = true
 			// and asks the declaring packages for the methods of the field types
 			gs.Default.MethodsOfFieldTypes = true
+			// and about the doc and tags of the type itself (p.Tpl and q.Tpl sit behind the same //line directive)
+			gs.Default.DocOfSelf = true
 		}
 		if g == "g2" {
 			// a generator that registers deferred callbacks and imports per type
